@@ -83,6 +83,7 @@ type FileSpec struct {
 	Mode    uint32 `json:"mode"`
 	Content string `json:"content"`
 	Link    string `json:"link,omitempty"` // C18: the entry is a symbolic link with this (relative) target
+	Hard    string `json:"hard,omitempty"` // C18: the entry is a second name (hard link) of this other file of the scenario
 }
 
 // Scenario is explicit: the seed only generates scenarios, the replay file
